@@ -1,7 +1,694 @@
-// correspondence + search binary for property C11 (stub)
+// C11 — every abstract action on a menu maps to a permitted concrete action; monotone snapping;
+// menus and histories of at most sixteen edges survive the 64-bit packing.
+//
+// Correspondence (lines answered by lean/RP/Driver/C11.lean with the model definitions):
+//   menu <h0> <h1> | <history> | 0 1 2 3 4 5   real Game::choices(n), u8::from(edge), Game::actionize(&edge),
+//                                              u64::from(Path::from(menu)), to_raise, to_shove, pot, turn
+//   pack <u8 codes>                            Path::from(Vec<Edge>) / Vec<Edge>::from(Path) (17 edges: panic)
+//   edge <u8 code>                             u64::from(Edge), Edge::from(u64)
+//   f32 <num> <den> 0 <2*STACK>                (pot as f32 * f32::from(odds)) as i16, exactly as game.rs computes it
+//
+// Search oracle (independent of the Lean model and of the engine's formulas; written from the
+// property text and the rules of No-Limit Hold'em): `Rules` follows the *action history*
+// (stacks, street bets, last raise size of the round, who has acted). At every decision and every
+// raise count 0..=5: menu non-empty, no duplicates, at most 13 entries, every kind on it permitted
+// by the rules, every entry's concrete action accepted by the engine (`is_allowed`, and `apply`
+// does not panic) AND by the rules (fold iff facing a bet, check iff not, call = outstanding <
+// stack, all-in = stack, outstanding + max(last raise, BB) <= raise <= stack - 1), raise entries
+// monotone in their odds (all-in counts as the stack), snapping: exact pot fraction >= stack =>
+// all-in, <= minimum raise => minimum raise, otherwise the pot fraction rounded down or up to a
+// chip; the menu packs and unpacks unchanged. Edges: u8 / u64 round trips over all 15 symbols,
+// distinct codes; random sequences of length 0..=16 round-trip and distinct sequences get distinct
+// words; length 17..=20 must be rejected. Odds tables: lowest terms, strictly sorted, every
+// per-street odds has a u8 code (no `expect("invalid odds value")`). Float: the product of
+// `actionize` equals floor(pot*num/den) for every pot 0..=2*STACK x every grid odds.
+//
+// States: random walks of the real engine (5 styles, every raise size) + every state reachable
+// under the abstraction (breadth-first from the root, following actionize of every menu entry with
+// the raise count of the current round; forced deals) ; thorough adds the breadth-first search over
+// all reachable betting states with every raise size.
+#[path = "../gamewalk.rs"]
+mod gamewalk;
+use gamewalk::*;
+use robopoker::gameplay::action::Action;
+use robopoker::gameplay::game::Game;
+use robopoker::gameplay::ply::Turn;
+use robopoker::mccfr::edge::Edge;
+use robopoker::mccfr::odds::Odds;
+use robopoker::mccfr::path::Path;
+use rpharness::*;
+use std::collections::{HashMap, HashSet, VecDeque};
+
+const STACK: i32 = robopoker::verif::STACK as i32;
+const BB: i32 = robopoker::verif::B_BLIND as i32;
+const SB: i32 = robopoker::verif::S_BLIND as i32;
+const MAX_RAISE_REPEATS: usize = robopoker::verif::MAX_RAISE_REPEATS;
+
+/// ---------------------------------------------------------------- rules of the game, from the history
+#[derive(Clone, Debug)]
+struct Rules {
+    stack: [i32; 2],
+    bet: [i32; 2],   // chips put in on this street
+    total: [i32; 2], // chips put in this hand
+    folded: [bool; 2],
+    acted: [bool; 2],
+    street: u8,
+    cur_bet: i32,
+    last_raise: i32, // size of the last full raise of this round (0: none)
+}
+impl Rules {
+    /// heads-up: seat 1 posts the small blind, seat 0 the big blind
+    fn new() -> Rules {
+        let mut r = Rules { stack: [STACK; 2], bet: [0; 2], total: [0; 2], folded: [false; 2], acted: [false; 2], street: 0, cur_bet: 0, last_raise: 0 };
+        r.put(1, SB);
+        r.put(0, BB);
+        r.cur_bet = BB;
+        r
+    }
+    fn put(&mut self, p: usize, x: i32) {
+        self.stack[p] -= x;
+        self.bet[p] += x;
+        self.total[p] += x;
+    }
+    fn pot(&self) -> i32 {
+        self.total[0] + self.total[1]
+    }
+    fn allin(&self, p: usize) -> bool {
+        self.stack[p] == 0
+    }
+    fn can_act(&self, p: usize) -> bool {
+        !self.folded[p] && !self.allin(p)
+    }
+    /// a player has to make a decision: nobody folded, and somebody who can act has not acted or
+    /// has not matched the bet (a lone player who has covered every all-in has nothing to answer)
+    fn is_decision(&self) -> bool {
+        if self.folded[0] || self.folded[1] {
+            return false;
+        }
+        let actors: Vec<usize> = (0..2).filter(|&p| self.can_act(p)).collect();
+        if actors.iter().all(|&p| self.acted[p] && self.bet[p] == self.cur_bet) {
+            return false;
+        }
+        !(actors.len() == 1 && self.bet[actors[0]] >= self.cur_bet)
+    }
+    fn outstanding(&self, p: usize) -> i32 {
+        self.cur_bet - self.bet[p]
+    }
+    fn min_raise(&self, p: usize) -> i32 {
+        self.outstanding(p) + self.last_raise.max(BB)
+    }
+    /// kind: 0 raise 1 shove 2 call 3 fold 4 check
+    fn kind_permitted(&self, p: usize, kind: u8) -> bool {
+        let o = self.outstanding(p);
+        let s = self.stack[p];
+        match kind {
+            0 => self.min_raise(p) <= s - 1,
+            1 => s > 0,
+            2 => o > 0 && o < s,
+            3 => o > 0,
+            4 => o == 0,
+            _ => false,
+        }
+    }
+    fn permitted(&self, p: usize, a: &Action) -> bool {
+        let o = self.outstanding(p);
+        let s = self.stack[p];
+        match a {
+            Action::Fold => o > 0,
+            Action::Check => o == 0,
+            Action::Call(x) => *x as i32 == o && o > 0 && o < s,
+            Action::Shove(x) => *x as i32 == s && s > 0,
+            Action::Raise(x) => (*x as i32) >= self.min_raise(p) && (*x as i32) <= s - 1,
+            _ => false,
+        }
+    }
+    fn apply(&self, p: usize, a: &Action) -> Rules {
+        let mut r = self.clone();
+        match a {
+            Action::Draw(_) => {
+                r.street += 1;
+                r.bet = [0; 2];
+                r.acted = [false; 2];
+                r.cur_bet = 0;
+                r.last_raise = 0;
+                return r;
+            }
+            Action::Fold => r.folded[p] = true,
+            Action::Check => {}
+            Action::Call(x) => r.put(p, *x as i32),
+            Action::Raise(x) | Action::Shove(x) => {
+                r.put(p, *x as i32);
+                if r.bet[p] > r.cur_bet {
+                    let by = r.bet[p] - r.cur_bet;
+                    if by >= r.last_raise.max(BB) || matches!(a, Action::Raise(_)) {
+                        r.last_raise = by;
+                    }
+                    r.cur_bet = r.bet[p];
+                }
+            }
+            Action::Blind(_) => unreachable!(),
+        }
+        r.acted[p] = true;
+        r
+    }
+}
+
+fn edge_kind(e: &Edge) -> u8 {
+    match e {
+        Edge::Raise(_) => 0,
+        Edge::Shove => 1,
+        Edge::Call => 2,
+        Edge::Fold => 3,
+        Edge::Check => 4,
+        Edge::Draw => 5,
+    }
+}
+fn action_kind(a: &Action) -> u8 {
+    match a {
+        Action::Raise(_) => 0,
+        Action::Shove(_) => 1,
+        Action::Call(_) => 2,
+        Action::Fold => 3,
+        Action::Check => 4,
+        Action::Draw(_) => 5,
+        Action::Blind(_) => 6,
+    }
+}
+fn code(e: &Edge) -> String {
+    let e = *e;
+    match catch(move || u8::from(e)) {
+        Some(c) => c.to_string(),
+        None => "panic".into(),
+    }
+}
+fn all_edges() -> Vec<Edge> {
+    let mut v = vec![Edge::Draw, Edge::Fold, Edge::Check, Edge::Call, Edge::Shove];
+    v.extend(Odds::GRID.iter().map(|o| Edge::Raise(*o)));
+    v
+}
+fn pack(es: &[Edge]) -> Option<u64> {
+    let v = es.to_vec();
+    catch(move || u64::from(Path::from(v)))
+}
+fn unpack(w: u64) -> Option<Vec<Edge>> {
+    catch(move || Vec::<Edge>::from(Path::from(w)))
+}
+fn div_floor(a: i64, b: i64) -> i64 {
+    a.div_euclid(b)
+}
+
+struct Ctx {
+    run: Run,
+    seen: HashSet<(i16, [(u8, i16, i16, i16); 2], usize, u8)>,
+    lines_menu: u64,
+}
+
+/// the model-facing line of one state: all raise counts 0..=5
+fn menu_line(g: &Game) -> String {
+    let mut sections = vec![];
+    for n in 0..=5usize {
+        let gg = *g;
+        let menu = match catch(move || gg.choices(n)) {
+            Some(m) => m,
+            None => {
+                sections.push("panic".to_string());
+                continue;
+            }
+        };
+        let path = pack(&menu).map(|w| w.to_string()).unwrap_or("panic".into());
+        let mut toks = vec![path];
+        for e in &menu {
+            let (gg, ee) = (*g, *e);
+            let a = catch(move || gg.actionize(&ee));
+            toks.push(format!("{}:{}", code(e), a.map(|a| legal_tok(&a)).unwrap_or("panic".into())));
+        }
+        sections.push(toks.join(" "));
+    }
+    format!("{} {} {} {} | {}", turn_tok(g.turn()), g.pot(), g.to_raise(), g.to_shove(), sections.join(" ; "))
+}
+
+/// the search oracle at one state of the real engine, `rules` = the same history seen by the rules
+fn check_state(cx: &mut Ctx, name: &str, g: &Game, rules: &Rules) {
+    cx.run.spec_checked += 1;
+    let decision = matches!(g.turn(), Turn::Choice(_));
+    if decision != rules.is_decision() {
+        cx.run.fail("decision-node", name, &format!("decision={}", rules.is_decision()), &turn_tok(g.turn()));
+        return;
+    }
+    let p = match g.turn() {
+        Turn::Choice(p) => p,
+        Turn::Chance => {
+            // not a decision: the menu is the single chance edge
+            for n in [0usize, 5] {
+                let m = g.choices(n);
+                cx.run.evaluations += 1;
+                if m != vec![Edge::Draw] {
+                    cx.run.fail("chance-menu", name, "[Draw]", &format!("{m:?}"));
+                }
+            }
+            cx.run.count("state:chance");
+            return;
+        }
+        Turn::Terminal => {
+            let gg = *g;
+            let m = catch(move || gg.choices(0));
+            cx.run.evaluations += 1;
+            if m != Some(vec![]) {
+                cx.run.fail("terminal-menu", name, "[]", &format!("{m:?}"));
+            }
+            cx.run.count("state:terminal");
+            return;
+        }
+    };
+    let stack = rules.stack[p];
+    let minr = rules.min_raise(p);
+    let pot = rules.pot() as i64;
+    if pot != g.pot() as i64 {
+        cx.run.fail("pot", name, &pot.to_string(), &g.pot().to_string());
+    }
+    let street = g.street() as isize as usize;
+    for n in 0..=5usize {
+        let at = format!("{name} | n={n}");
+        let gg = *g;
+        let menu = match catch(move || gg.choices(n)) {
+            Some(m) => m,
+            None => {
+                cx.run.fail("choices-panics", &at, "a menu", "panic");
+                continue;
+            }
+        };
+        cx.run.evaluations += 1;
+        cx.run.spec_checked += 1;
+        cx.run.distinct(&(betting_key(g), n));
+        cx.run.count(&format!("menu:{}:n{}:size{}", ["pref", "flop", "turn", "rive"][street.min(3)], n, menu.len()));
+        if menu.is_empty() {
+            cx.run.fail("menu-empty-at-decision", &at, "non-empty", "[]");
+        }
+        let set: HashSet<Edge> = menu.iter().copied().collect();
+        if set.len() != menu.len() {
+            cx.run.fail("menu-duplicates", &at, "no duplicates", &format!("{menu:?}"));
+        }
+        if menu.len() > 13 {
+            cx.run.fail("menu-longer-than-13", &at, "<= 13", &menu.len().to_string());
+        }
+        // which permitted kinds are missing (not required by the property: recorded only)
+        for k in 0..5u8 {
+            if rules.kind_permitted(p, k) && !menu.iter().any(|e| edge_kind(e) == k) {
+                cx.run.count(&format!("permitted-kind-not-offered:{}:{}", ["raise", "shove", "call", "fold", "check"][k as usize], if n > MAX_RAISE_REPEATS { "past-cap" } else { "within-cap" }));
+            }
+        }
+        // packing of the menu
+        match pack(&menu) {
+            None => cx.run.fail("menu-pack-panics", &at, "a path", "panic"),
+            Some(w) => {
+                if unpack(w).as_ref() != Some(&menu) {
+                    cx.run.fail("menu-pack-roundtrip", &at, &format!("{menu:?}"), &format!("{:?}", unpack(w)));
+                }
+            }
+        }
+        let mut raises: Vec<(Odds, i32)> = vec![];
+        for e in &menu {
+            cx.run.evaluations += 1;
+            cx.run.spec_checked += 1;
+            let k = edge_kind(e);
+            if k > 4 || !rules.kind_permitted(p, k) {
+                cx.run.fail("kind-not-permitted", &at, &format!("kinds permitted by the rules (outstanding {} stack {} min raise {})", rules.outstanding(p), stack, minr), &format!("{e:?}"));
+            }
+            let (gg, ee) = (*g, *e);
+            let a = match catch(move || gg.actionize(&ee)) {
+                Some(a) => a,
+                None => {
+                    cx.run.fail("actionize-panics", &format!("{at} | {e:?}"), "an action", "panic");
+                    continue;
+                }
+            };
+            let ak = action_kind(&a);
+            let kind_ok = if k == 0 { ak == 0 || ak == 1 } else { ak == k };
+            if !kind_ok {
+                cx.run.fail("entry-kind-mismatch", &format!("{at} | {e:?}"), "same kind (raise edge: raise or all-in)", &act_tok(&a));
+            }
+            if !g.is_allowed(&a) {
+                cx.run.fail("entry-rejected-by-engine", &format!("{at} | {e:?}"), "is_allowed", &act_tok(&a));
+            }
+            if !rules.permitted(p, &a) {
+                cx.run.fail("entry-rejected-by-rules", &format!("{at} | {e:?}"), &format!("permitted (outstanding {} stack {} min raise {})", rules.outstanding(p), stack, minr), &act_tok(&a));
+            }
+            let gg = *g;
+            if catch(move || gg.apply(a)).is_none() {
+                cx.run.fail("entry-apply-panics", &format!("{at} | {e:?}"), "a state", &format!("panic on {}", act_tok(&a)));
+            }
+            if let Edge::Raise(o) = e {
+                let chips = match a {
+                    Action::Raise(x) => x as i32,
+                    Action::Shove(x) => x as i32,
+                    _ => -1,
+                };
+                raises.push((*o, chips));
+                // snapping against the exact pot fraction pot*num/den
+                let (num, den) = (o.0 as i64, o.1 as i64);
+                let clamp = |c: i64| -> Action {
+                    if c >= stack as i64 { Action::Shove(stack as i16) } else if c <= minr as i64 { Action::Raise(minr as i16) } else { Action::Raise(c as i16) }
+                };
+                let lo = div_floor(pot * num, den);
+                let hi = -div_floor(-pot * num, den);
+                let (class, ok) = if pot * num >= stack as i64 * den {
+                    ("allin", a == Action::Shove(stack as i16))
+                } else if pot * num <= minr as i64 * den {
+                    ("min", a == Action::Raise(minr as i16))
+                } else {
+                    ("range", a == clamp(lo) || a == clamp(hi))
+                };
+                cx.run.count(&format!("raise-entry:snap-{class}"));
+                if !ok {
+                    cx.run.fail(&format!("snap-{class}"), &format!("{at} | {e:?} pot {pot} stack {stack} min raise {minr}"),
+                        &match class { "allin" => format!("s{stack}"), "min" => format!("r{minr}"), _ => format!("{} or {}", act_tok(&clamp(lo)), act_tok(&clamp(hi))) }, &act_tok(&a));
+                }
+            }
+        }
+        // monotone in the odds (as rationals), whatever the order on the menu
+        raises.sort_by(|a, b| ((a.0 .0 as i64) * (b.0 .1 as i64)).cmp(&((b.0 .0 as i64) * (a.0 .1 as i64))));
+        for w in raises.windows(2) {
+            cx.run.spec_checked += 1;
+            if w[0].1 > w[1].1 {
+                cx.run.fail("not-monotone", &at, &format!("chips({:?}) <= chips({:?})", w[0].0, w[1].0), &format!("{} > {}", w[0].1, w[1].1));
+            }
+        }
+    }
+    cx.run.count("state:decision");
+}
+
+/// replay a history on the rules (the engine says who acts; positions are not part of C11)
+fn rules_after(states: &[Game], hist: &[Action]) -> Vec<Rules> {
+    let mut out = vec![Rules::new()];
+    for (i, a) in hist.iter().enumerate() {
+        let p = match states[i].turn() {
+            Turn::Choice(p) => p,
+            _ => 0,
+        };
+        let r = out[i].apply(p, a);
+        out.push(r);
+    }
+    out
+}
+
+fn visit(cx: &mut Ctx, deal: &Deal, hist: &[Action], g: &Game, rules: &Rules, line_every: u64) {
+    let key = betting_key(g);
+    if !cx.seen.insert(key) {
+        return;
+    }
+    let name = format!("menu {} {} | {}", deal.h0, deal.h1, hist_tok(hist));
+    check_state(cx, &name, g, rules);
+    cx.lines_menu += 1;
+    if cx.lines_menu % line_every == 0 || hist.len() <= 3 {
+        cx.run.line(&format!("{name} | 0 1 2 3 4 5"), &menu_line(g));
+    }
+}
+
+/// every state reachable under the abstraction: from the root, follow actionize of every entry of
+/// choices(n) with n = aggressive edges of the current betting round; chance nodes deal the forced cards
+fn abstraction_bfs(cx: &mut Ctx, deal: &Deal, line_every: u64) {
+    struct Node {
+        g: Game,
+        rules: Rules,
+        n: usize,
+        parent: u32,
+        action: Option<Action>,
+    }
+    let root = root_with(deal.h0, deal.h1);
+    let mut nodes = vec![Node { g: root, rules: Rules::new(), n: 0, parent: u32::MAX, action: None }];
+    let mut seen: HashSet<((i16, [(u8, i16, i16, i16); 2], usize, u8), usize)> = HashSet::new();
+    let mut games: HashSet<(i16, [(u8, i16, i16, i16); 2], usize, u8)> = HashSet::new();
+    seen.insert((betting_key(&root), 0));
+    games.insert(betting_key(&root));
+    let mut queue: VecDeque<u32> = VecDeque::from([0]);
+    let (mut decisions, mut chances, mut terminals, mut transitions) = (0u64, 0u64, 0u64, 0u64);
+    while let Some(id) = queue.pop_front() {
+        let (g, rules, n) = (nodes[id as usize].g, nodes[id as usize].rules.clone(), nodes[id as usize].n);
+        let mut path = vec![];
+        let mut k = id;
+        while let Some(a) = nodes[k as usize].action {
+            path.push(a);
+            k = nodes[k as usize].parent;
+        }
+        path.reverse();
+        visit(cx, deal, &path, &g, &rules, line_every);
+        let mut kids: Vec<(Action, usize)> = vec![];
+        match g.turn() {
+            Turn::Terminal => terminals += 1,
+            Turn::Chance => {
+                chances += 1;
+                kids.push((Action::Draw(hand(deal.streets[g.street() as isize as usize])), 0));
+            }
+            Turn::Choice(_) => {
+                decisions += 1;
+                for e in g.choices(n) {
+                    let aggro = matches!(e, Edge::Raise(_) | Edge::Shove);
+                    let (gg, ee) = (g, e);
+                    if let Some(a) = catch(move || gg.actionize(&ee)) {
+                        kids.push((a, n + aggro as usize));
+                    }
+                }
+            }
+        }
+        let p = match g.turn() {
+            Turn::Choice(p) => p,
+            _ => 0,
+        };
+        for (a, n2) in kids {
+            let gg = g;
+            let child = match catch(move || gg.apply(a)) {
+                Some(c) => c,
+                None => {
+                    cx.run.fail("abstraction-step-panics", &format!("menu {} {} | {} then {}", deal.h0, deal.h1, hist_tok(&path), act_tok(&a)), "a state", "panic");
+                    continue;
+                }
+            };
+            transitions += 1;
+            // past the cap every raise count gives the same menus
+            let n2 = n2.min(MAX_RAISE_REPEATS + 1);
+            let key = (betting_key(&child), n2);
+            if seen.insert(key) {
+                games.insert(key.0);
+                nodes.push(Node { g: child, rules: rules.apply(p, &a), n: n2, parent: id, action: Some(a) });
+                queue.push_back(nodes.len() as u32 - 1);
+            }
+        }
+    }
+    cx.run.count_n("abstraction:nodes(state,raise-count)", nodes.len() as u64);
+    cx.run.count_n("abstraction:distinct-betting-states", games.len() as u64);
+    cx.run.count_n("abstraction:decisions", decisions);
+    cx.run.count_n("abstraction:chance-nodes", chances);
+    cx.run.count_n("abstraction:terminal-nodes", terminals);
+    cx.run.count_n("abstraction:transitions", transitions);
+    cx.run.notes.push(format!(
+        "states reachable under the abstraction (root, then actionize of every entry of choices(n), n = aggressive edges of the current round, forced deals): {} (betting state, raise count) nodes = {} distinct betting states ({} decisions, {} chance, {} terminal nodes visited), {} transitions; every one checked by the oracle for n = 0..=5",
+        nodes.len(), games.len(), decisions, chances, terminals, transitions));
+}
+
+/// thorough: breadth-first search over every reachable betting state (every raise size)
+fn full_bfs(cx: &mut Ctx, deal: &Deal) {
+    let root = root_with(deal.h0, deal.h1);
+    let mut parents: Vec<(u32, Option<Action>)> = vec![(u32::MAX, None)];
+    let mut seen: HashSet<(i16, [(u8, i16, i16, i16); 2], usize, u8)> = HashSet::new();
+    seen.insert(betting_key(&root));
+    let mut queue: VecDeque<(u32, Game, Rules)> = VecDeque::from([(0, root, Rules::new())]);
+    let mut decisions = 0u64;
+    while let Some((id, g, rules)) = queue.pop_front() {
+        let path_of = |parents: &Vec<(u32, Option<Action>)>| {
+            let mut path = vec![];
+            let mut k = id;
+            while let Some(a) = parents[k as usize].1 {
+                path.push(a);
+                k = parents[k as usize].0;
+            }
+            path.reverse();
+            path
+        };
+        let before = cx.run.failure_count;
+        if matches!(g.turn(), Turn::Choice(_)) {
+            decisions += 1;
+        }
+        if cx.seen.insert(betting_key(&g)) {
+            check_state(cx, &format!("bfs#{id}"), &g, &rules);
+            if cx.run.failure_count > before {
+                let name = format!("menu {} {} | {}", deal.h0, deal.h1, hist_tok(&path_of(&parents)));
+                cx.run.notes.push(format!("bfs#{id} = {name}"));
+            }
+            if id % 4096 == 0 {
+                let name = format!("menu {} {} | {}", deal.h0, deal.h1, hist_tok(&path_of(&parents)));
+                cx.run.line(&format!("{name} | 0 1 2 3 4 5"), &menu_line(&g));
+            }
+        }
+        let (p, kids): (usize, Vec<Action>) = match g.turn() {
+            Turn::Terminal => (0, vec![]),
+            Turn::Chance => (0, vec![Action::Draw(hand(deal.streets[g.street() as isize as usize]))]),
+            Turn::Choice(p) => (p, menu(&g)),
+        };
+        for a in kids {
+            let child = g.apply(a);
+            if seen.insert(betting_key(&child)) {
+                parents.push((id, Some(a)));
+                queue.push_back((parents.len() as u32 - 1, child, rules.apply(p, &a)));
+            }
+        }
+    }
+    cx.run.count_n("bfs:states", parents.len() as u64);
+    cx.run.count_n("bfs:decisions", decisions);
+    cx.run.notes.push(format!("breadth-first search over all {} reachable betting states of the configured game ({} decisions; every raise size; one forced deal): menu oracle at every decision for n = 0..=5", parents.len(), decisions));
+}
+
 fn main() {
-    let a = rpharness::args();
-    let mut run = rpharness::Run::new(&a.out);
-    run.rule = "stub".into();
-    run.finish();
+    let a = args();
+    let mut rng = Rng::new(a.seed);
+    quiet_panics();
+    let mut cx = Ctx { run: Run::new(&a.out), seen: HashSet::new(), lines_menu: 0 };
+    let deals = make_deals(&mut rng, 12);
+    let n_hist: usize = if a.thorough() { 100_000 } else { 20_000 };
+    cx.run.rule = format!(
+        "every state reachable under the abstraction (breadth-first, counted in the notes) + {n_hist} random histories of the real Game (5 styles x legal() ∪ every raise size, {} forced deals){}; each distinct betting state once, x raise counts 0..=5 x every menu entry, against the history-based NLHE rules (see file header); all {} pots x {} grid odds for the f32 product; all 15 single edges; random edge sequences of length 0..=16 (round trip, injectivity) and 17..=20 (rejected). a case = one (betting state, raise count); non-trivial always",
+        deals.len(), if a.thorough() { " + breadth-first search over all reachable betting states" } else { "" }, 2 * STACK + 1, Odds::GRID.len()
+    );
+
+    // ---- odds tables
+    let rat_lt = |a: &Odds, b: &Odds| (a.0 as i64) * (b.1 as i64) < (b.0 as i64) * (a.1 as i64);
+    fn gcd(a: i64, b: i64) -> i64 { if b == 0 { a } else { gcd(b, a % b) } }
+    let tables: Vec<(&str, Vec<Odds>)> = vec![
+        ("GRID", Odds::GRID.to_vec()), ("PREF_RAISES", Odds::PREF_RAISES.to_vec()), ("FLOP_RAISES", Odds::FLOP_RAISES.to_vec()),
+        ("LATE_RAISES", Odds::LATE_RAISES.to_vec()), ("LAST_RAISES", Odds::LAST_RAISES.to_vec()),
+    ];
+    for (name, t) in &tables {
+        for o in t {
+            cx.run.spec_checked += 1;
+            if o.0 <= 0 || o.1 <= 0 || gcd(o.0 as i64, o.1 as i64) != 1 {
+                cx.run.fail("odds-not-lowest-terms", &format!("{name} {o:?}"), "positive, gcd 1", &format!("{o:?}"));
+            }
+            let oo = *o;
+            match catch(move || u8::from(Edge::Raise(oo))) {
+                Some(c) if (6..=15).contains(&c) && Edge::from(c) == Edge::Raise(*o) => {}
+                got => cx.run.fail("street-odds-without-u8-code", &format!("{name} {o:?}"), "a code 6..=15 that decodes back", &format!("{got:?}")),
+            }
+        }
+        for w in t.windows(2) {
+            cx.run.spec_checked += 1;
+            if !rat_lt(&w[0], &w[1]) {
+                cx.run.fail("odds-not-sorted", &format!("{name}"), "strictly increasing", &format!("{:?} {:?}", w[0], w[1]));
+            }
+        }
+        cx.run.count(&format!("odds-table:{name}:{}", t.len()));
+    }
+
+    // ---- the f32 product of actionize: every pot x every grid odds (exhaustive)
+    for o in Odds::GRID.iter() {
+        let mut vals = vec![];
+        for pot in 0..=(2 * STACK) as i16 {
+            let odd = f32::from(*o); // Utility::from(*odds)
+            let bet = (pot as f32 * odd) as i16; // (pot * odd) as Chips
+            vals.push(bet.to_string());
+            cx.run.evaluations += 1;
+            cx.run.spec_checked += 1;
+            let want = (pot as i64 * o.0 as i64) / o.1 as i64;
+            if bet as i64 != want {
+                cx.run.fail("f32-product-not-floor", &format!("pot {pot} odds {}:{}", o.0, o.1), &want.to_string(), &bet.to_string());
+            }
+        }
+        cx.run.line(&format!("f32 {} {} 0 {}", o.0, o.1, 2 * STACK), &vals.join(" "));
+        cx.run.count("f32-rows");
+    }
+
+    // ---- single edges (exhaustive) and edge sequences
+    let edges = all_edges();
+    let mut codes8 = HashSet::new();
+    let mut codes64 = HashSet::new();
+    for e in &edges {
+        cx.run.evaluations += 1;
+        cx.run.spec_checked += 1;
+        let c = u8::from(*e);
+        let w = u64::from(*e);
+        if !(1..=15).contains(&c) || Edge::from(c) != *e || !codes8.insert(c) {
+            cx.run.fail("edge-u8", &format!("{e:?}"), "a distinct code 1..=15 that decodes back", &format!("{c}"));
+        }
+        let back = catch(move || Edge::from(w));
+        if back != Some(*e) || !codes64.insert(w) {
+            cx.run.fail("edge-u64", &format!("{e:?}"), "a distinct code that decodes back", &format!("{w} -> {back:?}"));
+        }
+        cx.run.line(&format!("edge {c}"), &format!("{w} {}", back.map(|b| code(&b)).unwrap_or("panic".into())));
+        cx.run.distinct(&("edge", c));
+    }
+    let mut words: HashMap<u64, Vec<u8>> = HashMap::new();
+    let n_seq = if a.thorough() { 200_000 } else { 20_000 };
+    for i in 0..n_seq {
+        let len = match i % 10 {
+            0 => 16,
+            1 => 15,
+            2 => rng.below(3) as usize,
+            _ => rng.below(17) as usize,
+        };
+        let style = rng.below(4);
+        let es: Vec<Edge> = (0..len).map(|_| match style {
+            0 => edges[14 - rng.below(3) as usize], // high codes
+            1 => edges[rng.below(5) as usize],      // plain edges
+            _ => edges[rng.below(15) as usize],
+        }).collect();
+        cx.run.evaluations += 1;
+        cx.run.spec_checked += 1;
+        let cs: Vec<u8> = es.iter().map(|e| u8::from(*e)).collect();
+        let name = format!("pack {}", cs.iter().map(|c| c.to_string()).collect::<Vec<_>>().join(" "));
+        match pack(&es) {
+            None => {
+                cx.run.fail("pack-panics", &name, "a path", "panic");
+                cx.run.line(&name, "panic");
+            }
+            Some(w) => {
+                let back = unpack(w);
+                if back.as_ref() != Some(&es) {
+                    cx.run.fail("pack-roundtrip", &name, &format!("{es:?}"), &format!("{back:?}"));
+                }
+                if let Some(prev) = words.get(&w) {
+                    if *prev != cs {
+                        cx.run.fail("pack-collision", &name, "distinct words for distinct sequences", &format!("{w} also encodes {prev:?}"));
+                    }
+                } else {
+                    words.insert(w, cs.clone());
+                }
+                if i % 8 == 0 || len >= 15 {
+                    cx.run.line(&name, &format!("{w} {}", back.unwrap_or_default().iter().map(code).collect::<Vec<_>>().join(" ")).trim_end().to_string());
+                }
+            }
+        }
+        cx.run.count(&format!("sequence-length:{len:02}"));
+        cx.run.distinct(&("seq", cs));
+    }
+    for len in 17..=20usize {
+        for _ in 0..8 {
+            let es: Vec<Edge> = (0..len).map(|_| edges[rng.below(15) as usize]).collect();
+            cx.run.evaluations += 1;
+            cx.run.spec_checked += 1;
+            let name = format!("pack {}", es.iter().map(code).collect::<Vec<_>>().join(" "));
+            let got = pack(&es);
+            if got.is_some() {
+                cx.run.fail("pack-accepts-more-than-16", &name, "panic (assert!(edges.len() <= 16))", &format!("{got:?}"));
+            }
+            cx.run.line(&name, &got.map(|w| w.to_string()).unwrap_or("panic".into()));
+            cx.run.count(&format!("sequence-length:{len:02}"));
+        }
+    }
+
+    // ---- states: reachable under the abstraction, then random walks
+    abstraction_bfs(&mut cx, &deals[0], 1);
+    for h in 0..n_hist {
+        let deal = &deals[h % deals.len()];
+        let style = (h / deals.len()) as u64 % 5;
+        let (hist, states) = random_history(&mut rng, deal, style);
+        let rules = rules_after(&states, &hist);
+        for i in 0..=hist.len() {
+            visit(&mut cx, deal, &hist[..i], &states[i], &rules[i], if a.thorough() { 4 } else { 1 });
+        }
+    }
+    cx.run.exhaustive = false;
+    if a.thorough() {
+        full_bfs(&mut cx, &deals[0]);
+        cx.run.exhaustive = true;
+    }
+    cx.run.count_n("distinct-betting-states-checked", cx.seen.len() as u64);
+    cx.run.finish();
 }
